@@ -13,6 +13,8 @@ package store
 
 // C05: delete only the alerts that were not modified since the caller read them (same UpdatedAt), and mark the
 // store destroyed only if it ended up empty and the caller asked for it. A destroyed store stays destroyed.
+// store invariant: a destroyed store is empty (it is destroyed only when found empty, and refuses every Set afterwards)
+//@ spec deadEmpty(a *Alerts) bool = a.destroyed ==> len(a.alerts) == 0
 //@ func (*Alerts).DeleteIfNotModified
 //@   props C05 C06
 //@   requires a != nil && a.alerts != nil
@@ -25,7 +27,8 @@ package store
 //@             && (forall i int :: 0 <= i && i < len(alerts) && fpA(alerts[i]) == f ==> alerts[i].UpdatedAt != old(a.alerts[f].UpdatedAt)) ==> f in a.alerts
 //@   ensures [destroyed] a.destroyed == (old(a.destroyed) || (destroyIfEmpty && len(a.alerts) == 0))
 //@   ensures [result] result == nil
-//@   loop 1 invariant rangeindex < len(alerts)
+//@   ensures [destroyed-store-is-empty] old(deadEmpty(a)) ==> deadEmpty(a)
+//@   loop 1 invariant rangeindex < len(alerts) && a.destroyed == old(a.destroyed) && (old(len(a.alerts)) == 0 ==> len(a.alerts) == 0)
 //@   loop 1 invariant forall f model.Fingerprint :: f in a.alerts ==> old(f in a.alerts) && a.alerts[f] == old(a.alerts[f])
 //@   loop 1 invariant forall f model.Fingerprint :: old(f in a.alerts) && !(f in a.alerts)
 //@             ==> (exists i int :: 0 <= i && i <= rangeindex && fpA(alerts[i]) == f && alerts[i].UpdatedAt == old(a.alerts[f].UpdatedAt))
@@ -72,6 +75,7 @@ package store
 //@   ensures [limited-means-full] result != nil && !old(a.destroyed) ==> nameOf(alert) in a.limits && len(a.limits[nameOf(alert)].items) >= a.perAlertLimit
 //@             && !(fpA(alert) in a.limits[nameOf(alert)].index) && a.limits[nameOf(alert)].items[0].priority >= clock()
 //@   ensures [fields] a.destroyed == old(a.destroyed) && a.alerts == old(a.alerts) && a.limits == old(a.limits) && a.perAlertLimit == old(a.perAlertLimit)
+//@   ensures [destroyed-store-is-empty] old(deadEmpty(a)) ==> deadEmpty(a)
 //@   ensures [bucket] bucketOK(a, nameOf(alert))
 //@   ensures [other-buckets] forall n string :: n != nameOf(alert) ==> (n in a.limits) == old(n in a.limits) && a.limits[n] == old(a.limits[n])
 //@   assigns a.alerts[*], a.limits[*], heap:MD$map[V]*limit.item, heap:MV$map[V]*limit.item, heap:A$*limit.item, heap:H$limit.item, heap:H$limit.Bucket
@@ -91,6 +95,7 @@ package store
 //@   ensures [limited-means-full] result != nil && !old(a.destroyed) ==> nameOf(alert) in a.limits && len(a.limits[nameOf(alert)].items) >= a.perAlertLimit
 //@             && !(fpA(alert) in a.limits[nameOf(alert)].index) && a.limits[nameOf(alert)].items[0].priority >= clock()
 //@   ensures [fields] a.destroyed == old(a.destroyed) && a.alerts == old(a.alerts) && a.limits == old(a.limits) && a.perAlertLimit == old(a.perAlertLimit)
+//@   ensures [destroyed-store-is-empty] old(deadEmpty(a)) ==> deadEmpty(a)
 //@   ensures [bucket] bucketOK(a, nameOf(alert))
 //@   ensures [other-buckets] forall n string :: n != nameOf(alert) ==> (n in a.limits) == old(n in a.limits) && a.limits[n] == old(a.limits[n])
 //@   assigns a.alerts[*], a.limits[*], heap:MD$map[V]*limit.item, heap:MV$map[V]*limit.item, heap:A$*limit.item, heap:H$limit.item, heap:H$limit.Bucket
@@ -111,6 +116,7 @@ package store
 //@   ensures [refusal-kinds] result != nil ==> (old(a.destroyed) && result == ErrDestroyed) || (!old(a.destroyed) && a.perAlertLimit > 0 && result == ErrLimited)
 //@   ensures [destroyed] old(a.destroyed) && !(old(fpA(alert) in a.alerts) && old(a.alerts[fpA(alert)].UpdatedAt) > alert.UpdatedAt) ==> result == ErrDestroyed
 //@   ensures [fields] a.destroyed == old(a.destroyed) && a.alerts == old(a.alerts)
+//@   ensures [destroyed-store-is-empty] old(deadEmpty(a)) ==> deadEmpty(a)
 //@   ensures [nonnil] forall f model.Fingerprint :: f in a.alerts ==> a.alerts[f] != nil
 //@   assigns a.alerts[*], a.limits[*], heap:MD$map[V]*limit.item, heap:MV$map[V]*limit.item, heap:A$*limit.item, heap:H$limit.item, heap:H$limit.Bucket
 
